@@ -1,7 +1,9 @@
 """Configuration of the C09 check (loaded by tools/props.py)."""
 _TRUSTED = [
-    "tools/genx_crosstalk.py (NEIGHBOR_FACTORS of deconvolution/wires.rs -> exact rationals of the binary64 constants; "
-    "a_matrix indexes them by |i - j| with 0.0 beyond the table: read from the source text, a few spellings accepted)",
+    "tools/genx_crosstalk.py (the matrix a_matrix(n) is taken from the IMPLEMENTATION through the hook "
+    "verif::crosstalk_matrix for n = 1..16, 64, 255, 256, checked to be the band Toeplitz matrix of five factors the "
+    "theorem is about, factors written as exact rationals of the binary64 numbers; other block lengths assumed to follow "
+    "the same rule)",
     "standard-library real-number axioms (sig_forall_dec, sig_not_dec, classic, functional_extensionality_dep): only the "
     "cross-talk matrix theorems",
     "hand-written Gallina model of MainEvent::try_from_banks over DECODED banks (coq/Event/Event.v), tied to "
@@ -37,7 +39,7 @@ CFG = dict(
     uses_gen=False,
     rule='panic search on the real code: try_from_banks, timestamp(), avalanches(), vertex() under catch_unwind, observation ok / err / panic, the model predicting the class of try_from_banks and never `panic`. Cases: simulated-like multi-track events (response-shaped pulses, noise 0/3/30 counts, straight tracks from a common point so that vertices are found); the same events with packets decoded, changed and RE-ENCODED with valid CRCs and baselines: samples at i16::MIN/MAX in 7 patterns (all, after the delay only, sparse, alternating, ...), requested_samples 0/1/2/511/65535, suppression with keep_last at its bounds, 16-byte suppressed packets, waveforms cut at 64 and at delay-1/delay/delay+1, PWB packets with all 79 channels, requested_samples 0/1/delay+-1/511, only Fpn/Reset channels, header fields at their maxima, 1/2/3/7 chunks, TRG counters at 0 and 2^32-1; duplicated/missing/foreign banks (22 inconsistency classes); the single-check-decides cases of C10; random names (ASCII and multi-byte) and bytes. non-trivial = more than one bank or not rejected',
     trusted=_TRUSTED,
-    level_text="Coq theorems. (1) END-TO-END: for every run number and every list of RAW (bank name bytes, data bytes) pairs, the composed model of try_from_banks (name parsers of C08, decoders of C02/C03/C04/C05/C06, maps and calibration tables regenerated from the source, assembly logic of lib.rs) never reaches Panic, and builds with and without overflow checks agree (C09_e2e_build_total, C09_e2e_build_no_wrap; the typing hypotheses of the assembly theorems are discharged from the decoder theorems). (2) avalanches(): a panic-aware line-by-line model (contiguous_ranges, problem_dimensions, y_matrix, wire_range_deconvolution, hit extraction, both sorts, pairing) returns for EVERY content of the 256 wire and 32x576 pad slots, all binary64 values included - NaNs never become hits and the deconvolved inputs are finite by C17 - under two named hypotheses: the shape of faer's Cholesky solve (faer_shape; its internal unwrap is assumed - the matrix it factorises is PROVED symmetric positive definite over the reals for the regenerated NEIGHBOR_FACTORS and every block length, x^T A x >= 0.6 |x|^2 (C09_crosstalk_matrix_positive_definite), and the binary64 factorisation is run on the implementation for all 256 block lengths, which is exhaustive for this matrix family) and negativity of the response windows (measured: rel17table). timestamp() is a field read. (3) vertex(): PARTIAL (C09_vertex_total_partial) - the wrapper adds no panic site; with the stages of C15/C14 and the optimiser as an interaction tree that receives the cost function, vertex() returns provided the hypotheses of C14 in their evaluated-vector forms, asked only of the clusters and the track list THIS avalanche list leads to: the unproved numeric gaps (N3e)/(V3e) the cost functions return a non-NaN number on the vectors the optimiser actually asks (the asserts at track_fitting.rs:265 / vertex_fitting.rs:231 do not fire; false on the class of the open finding F9), (N4e)/(V4e) argmin's tree is well formed for dimension 6 / 3, and (Z1) SpacePoint::try_from does not panic on any avalanche (NaN-freedom of the centroid z); plus the facts (N2), (V1), (V2bc), (V5) about the event's radii / tracks being NaN-free, the IEEE law (N1), C15's no-repeated-bin, a permutation sort and a symmetric, transitive track equality. The former all-vectors hypotheses (N3)/(V3), which no binary64 kernel satisfies, are gone (the lemmas carrying them were removed from Fit_proofs.v). The premise set is shown jointly satisfiable by a binary64 instance with the real cost kernels (C09_vertex_premises_satisfiable; toy parts listed in coq/Signal/VertexInst.v).",
+    level_text="Coq theorems. (1) END-TO-END: for every run number and every list of RAW (bank name bytes, data bytes) pairs, the composed model of try_from_banks (name parsers of C08, decoders of C02/C03/C04/C05/C06, maps and calibration tables regenerated from the source, assembly logic of lib.rs) never reaches Panic, and builds with and without overflow checks agree (C09_e2e_build_total, C09_e2e_build_no_wrap; the typing hypotheses of the assembly theorems are discharged from the decoder theorems). (2) avalanches(): a panic-aware line-by-line model (contiguous_ranges, problem_dimensions, y_matrix, wire_range_deconvolution, hit extraction, both sorts, pairing) returns for EVERY content of the 256 wire and 32x576 pad slots, all binary64 values included - NaNs never become hits and the deconvolved inputs are finite by C17 - under two named hypotheses: the shape of faer's Cholesky solve (faer_shape; its internal unwrap is assumed - the matrix it factorises is PROVED symmetric positive definite over the reals for the regenerated NEIGHBOR_FACTORS and every block length, x^T A x >= margin |x|^2 with margin = a0 - 2(|a1|+..+|a4|) > 0, 0.6396 today (C09_crosstalk_matrix_positive_definite), and the binary64 factorisation is run on the implementation for all 256 block lengths, which is exhaustive for this matrix family) and negativity of the response windows (measured: rel17table). timestamp() is a field read. (3) vertex(): PARTIAL (C09_vertex_total_partial) - the wrapper adds no panic site; with the stages of C15/C14 and the optimiser as an interaction tree that receives the cost function, vertex() returns provided the hypotheses of C14 in their evaluated-vector forms, asked only of the clusters and the track list THIS avalanche list leads to: the unproved numeric gaps (N3e)/(V3e) the cost functions return a non-NaN number on the vectors the optimiser actually asks (the asserts at track_fitting.rs:265 / vertex_fitting.rs:231 do not fire; false on the class of the open finding F9), (N4e)/(V4e) argmin's tree is well formed for dimension 6 / 3, and (Z1) SpacePoint::try_from does not panic on any avalanche (NaN-freedom of the centroid z); plus the facts (N2), (V1), (V2bc), (V5) about the event's radii / tracks being NaN-free, the IEEE law (N1), C15's no-repeated-bin, a permutation sort and a symmetric, transitive track equality. The former all-vectors hypotheses (N3)/(V3), which no binary64 kernel satisfies, are gone (the lemmas carrying them were removed from Fit_proofs.v). The premise set is shown jointly satisfiable by a binary64 instance with the real cost kernels (C09_vertex_premises_satisfiable; toy parts listed in coq/Signal/VertexInst.v).",
     level_note="proved: totality of the whole event build from raw bytes; totality of avalanches() modulo faer_shape and the table fact. Not proved: vertex() beyond its control skeleton (the gaps N3e/N4e/V3e/V4e and Z1 of C09_vertex_total_partial) - exercised by the panic search on realistic and extreme events. The end-to-end model is tied to the code by the differential run of check C10 (raw-bank cases), the avalanches model by the `av` cases (unit avt). Trusted as for C10; plus the mapping of a component Panic to a decode error in the environment record (backed by C09_e2e_components_never_panic, C09_e2e_map_arguments_in_range).",
     note='a `panic` observation is a bank list that unwinds the real library; an ok/err difference is a departure from the model proved total',
 )
@@ -47,3 +49,6 @@ CFG["uses_gen"] = True
 
 # a run with fewer cases than half of what the quick tier generates today would be a (partly) vacuous differential
 CFG["min_cases"] = 1987
+
+# the cross-talk matrix theorems are about coq/Gen/CrossTalk.v
+CFG["needs_gen"] = ["crosstalk"]
